@@ -22,29 +22,33 @@ template<RegKind K> constexpr bool is_gp() { return K == kW || K == kX; }
 template<RegKind K> constexpr bool is_element() { return K >= kEB; }
 template<RegKind K> constexpr uint32_t lane_count() { return K == kEB ? 16 : K == kEH ? 8 : K == kES ? 4 : K == kED ? 2 : K == kE4B ? 4 : K == kE2H ? 4 : 0; }
 
-template<RegKind K> static inline Operand make_reg(uint32_t id, uint32_t idx) {
+// The operand handed to the formatter is a typed static that is written field by field: a struct copy is a 16-byte memcpy for the solver, after
+// which the operand type is no longer a constant and every branch of format_operand (register list loops included) is explored.
+static Operand_ g_op;
+static inline void put(const Operand_& src) { g_op._signature = src._signature; g_op._base_id = src._base_id; g_op._data[0] = src._data[0]; g_op._data[1] = src._data[1]; }
+template<RegKind K> static inline void make_reg(uint32_t id, uint32_t idx) {
   a64::Vec v = a64::Vec::make_v128(id);
-  if constexpr (K == kW) return a64::Gp::make_r32(id);
-  else if constexpr (K == kX) return a64::Gp::make_r64(id);
-  else if constexpr (K == kB) return v.b();
-  else if constexpr (K == kH) return v.h();
-  else if constexpr (K == kS) return v.s();
-  else if constexpr (K == kD) return v.d();
-  else if constexpr (K == kQ) return v.q();
-  else if constexpr (K == kV8B) return v.b8();
-  else if constexpr (K == kV16B) return v.b16();
-  else if constexpr (K == kV4H) return v.h4();
-  else if constexpr (K == kV8H) return v.h8();
-  else if constexpr (K == kV2S) return v.s2();
-  else if constexpr (K == kV4S) return v.s4();
-  else if constexpr (K == kV2D) return v.d2();
-  else if constexpr (K == kV2H) return v.h2();
-  else if constexpr (K == kEB) return v.b(idx);
-  else if constexpr (K == kEH) return v.h(idx);
-  else if constexpr (K == kES) return v.s(idx);
-  else if constexpr (K == kED) return v.d(idx);
-  else if constexpr (K == kE4B) return v.b4(idx);
-  else return v.h2(idx);
+  if constexpr (K == kW) put(a64::Gp::make_r32(id));
+  else if constexpr (K == kX) put(a64::Gp::make_r64(id));
+  else if constexpr (K == kB) put(v.b());
+  else if constexpr (K == kH) put(v.h());
+  else if constexpr (K == kS) put(v.s());
+  else if constexpr (K == kD) put(v.d());
+  else if constexpr (K == kQ) put(v.q());
+  else if constexpr (K == kV8B) put(v.b8());
+  else if constexpr (K == kV16B) put(v.b16());
+  else if constexpr (K == kV4H) put(v.h4());
+  else if constexpr (K == kV8H) put(v.h8());
+  else if constexpr (K == kV2S) put(v.s2());
+  else if constexpr (K == kV4S) put(v.s4());
+  else if constexpr (K == kV2D) put(v.d2());
+  else if constexpr (K == kV2H) put(v.h2());
+  else if constexpr (K == kEB) put(v.b(idx));
+  else if constexpr (K == kEH) put(v.h(idx));
+  else if constexpr (K == kES) put(v.s(idx));
+  else if constexpr (K == kED) put(v.d(idx));
+  else if constexpr (K == kE4B) put(v.b4(idx));
+  else put(v.h2(idx));
 }
 
 // the arrangement / element suffix behind "v<id>"
@@ -71,24 +75,32 @@ template<RegKind K> static inline void match_suffix(Cur& c, uint32_t idx) {
   }
 }
 
-template<RegKind K> static void a64_reg_case() {
-  uint32_t id = nondet_u8() & 31;
-  if (is_gp<K>() && id == 31) id = 30;   // 31 is the stack pointer, 63 the zero register: h_a64reg_special
-  uint32_t idx = 0;
-  if (is_element<K>()) { idx = nondet_u8() & 15; if (idx >= lane_count<K>()) idx &= lane_count<K>() - 1; }
-  Operand op = make_reg<K>(id, idx);
+// one path per element index (the index is part of the operand signature: a symbolic signature makes format_operand explore every operand
+// kind); the register id is symbolic on every path
+static bool reached_reg;
+template<RegKind K, uint32_t IDX> static void a64_reg_path(uint32_t id) {
+  make_reg<K>(id, IDX);
   String sb; make_string<255>(sb);
   no_heap::n_calls = 0; no_heap::active = true;
-  Error e = arm::FormatterInternal::format_operand(sb, any_flags(), nullptr, Arch::kAArch64, op);
+  Error e = arm::FormatterInternal::format_operand(sb, any_flags(), nullptr, Arch::kAArch64, g_op);
   no_heap::active = false;
   V_ASSERT(e == Error::kOk && no_heap::n_calls == 0, "a64 register formatting succeeds within the buffer given");
   Cur c(sb.data(), sb.size());
   c.ch(K == kW ? 'w' : K == kX ? 'x' : K == kB ? 'b' : K == kH ? 'h' : K == kS ? 's' : K == kD ? 'd' : K == kQ ? 'q' : 'v');
   if (c.udec<2>() != id) c.ok = false;
-  match_suffix<K>(c, idx);
+  match_suffix<K>(c, IDX);
   V_ASSERT(c.at_end(), "a64 register text is the architectural name of the register, its arrangement and its element");
   observe_text<16>(sb);
-  V_WITNESS("a64 reg formatted");
+  reached_reg = true;
+}
+// through format_operand the first and the last element are decided (two paths); every index is decided on format_register itself (a64_elem_case)
+template<RegKind K> static void a64_reg_case() {
+  uint32_t id = nondet_u8() & 31;
+  if (is_gp<K>() && id == 31) id = 30;   // 31 is the stack pointer, 63 the zero register: h_a64reg_special
+  reached_reg = false;
+  if constexpr (is_element<K>()) { if (nondet_bool()) a64_reg_path<K, 0>(id); else a64_reg_path<K, lane_count<K>() - 1>(id); }
+  else a64_reg_path<K, 0>(id);
+  if (reached_reg) V_WITNESS("a64 reg formatted");
 }
 HARNESS h_a64reg_w() { a64_reg_case<kW>(); }
 HARNESS h_a64reg_x() { a64_reg_case<kX>(); }
@@ -105,6 +117,30 @@ HARNESS h_a64reg_v2s() { a64_reg_case<kV2S>(); }
 HARNESS h_a64reg_v4s() { a64_reg_case<kV4S>(); }
 HARNESS h_a64reg_v2d() { a64_reg_case<kV2D>(); }
 HARNESS h_a64reg_v2h_kf_C20B() { a64_reg_case<kV2H>(); }   // known finding C20B: Vn.2H is shown as vN.8h
+// format_register itself: element type constant, register id and element index symbolic (they are plain arguments here, not signature fields)
+template<RegKind K> static void a64_elem_case() {
+  uint32_t id = nondet_u8() & 31, idx = nondet_u8() & (lane_count<K>() - 1);
+  constexpr uint32_t ET = K == kEB ? uint32_t(a64::VecElementType::kB) : K == kEH ? uint32_t(a64::VecElementType::kH) : K == kES ? uint32_t(a64::VecElementType::kS) :
+                          K == kED ? uint32_t(a64::VecElementType::kD) : K == kE4B ? uint32_t(a64::VecElementType::kB4) : uint32_t(a64::VecElementType::kH2);
+  String sb; make_string<255>(sb);
+  no_heap::n_calls = 0; no_heap::active = true;
+  Error e = arm::FormatterInternal::format_register(sb, any_flags(), nullptr, Arch::kAArch64, RegType::kVec128, id, ET, idx);
+  no_heap::active = false;
+  V_ASSERT(e == Error::kOk && no_heap::n_calls == 0, "a64 element formatting succeeds within the buffer given");
+  Cur c(sb.data(), sb.size());
+  c.ch('v');
+  if (c.udec<2>() != id) c.ok = false;
+  match_suffix<K>(c, idx);
+  V_ASSERT(c.at_end(), "a64 element text is the vector register, the element size and the element index");
+  observe_text<16>(sb);
+  V_WITNESS("a64 element formatted");
+}
+HARNESS h_a64elem_b() { a64_elem_case<kEB>(); }
+HARNESS h_a64elem_h() { a64_elem_case<kEH>(); }
+HARNESS h_a64elem_s() { a64_elem_case<kES>(); }
+HARNESS h_a64elem_d() { a64_elem_case<kED>(); }
+HARNESS h_a64elem_4b() { a64_elem_case<kE4B>(); }
+HARNESS h_a64elem_2h() { a64_elem_case<kE2H>(); }
 HARNESS h_a64reg_eb() { a64_reg_case<kEB>(); }
 HARNESS h_a64reg_eh() { a64_reg_case<kEH>(); }
 HARNESS h_a64reg_es() { a64_reg_case<kES>(); }
@@ -113,21 +149,39 @@ HARNESS h_a64reg_e4b() { a64_reg_case<kE4B>(); }
 HARNESS h_a64reg_e2h() { a64_reg_case<kE2H>(); }
 
 // WSP / SP (id 31) and WZR / XZR (asmjit's id 63)
-HARNESS h_a64reg_special() {
-  bool x = nondet_bool(), zr = nondet_bool();
-  uint32_t id = zr ? 63u : 31u;
-  Operand op = x ? Operand(a64::Gp::make_r64(id)) : Operand(a64::Gp::make_r32(id));
+template<bool X, bool ZR> static void a64_special_case() {
+  if (X) put(a64::Gp::make_r64(ZR ? 63u : 31u)); else put(a64::Gp::make_r32(ZR ? 63u : 31u));
   String sb; make_string<255>(sb);
   no_heap::n_calls = 0; no_heap::active = true;
-  Error e = arm::FormatterInternal::format_operand(sb, any_flags(), nullptr, Arch::kAArch64, op);
+  Error e = arm::FormatterInternal::format_operand(sb, any_flags(), nullptr, Arch::kAArch64, g_op);
   no_heap::active = false;
   V_ASSERT(e == Error::kOk && no_heap::n_calls == 0, "a64 special register formatting succeeds within the buffer given");
   Cur c(sb.data(), sb.size());
-  if (zr) { c.ch(x ? 'x' : 'w'); c.lit("zr"); }
-  else { if (!x) c.ch('w'); c.lit("sp"); }
+  if (ZR) { c.ch(X ? 'x' : 'w'); c.lit("zr"); }
+  else { if (!X) c.ch('w'); c.lit("sp"); }
   V_ASSERT(c.at_end(), "stack pointer and zero register are shown as sp, wsp, xzr, wzr");
   observe_text<8>(sb);
   V_WITNESS("a64 special reg formatted");
+}
+HARNESS h_a64reg_sp() { a64_special_case<true, false>(); }
+HARNESS h_a64reg_wsp() { a64_special_case<false, false>(); }
+HARNESS h_a64reg_xzr() { a64_special_case<true, true>(); }
+HARNESS h_a64reg_wzr() { a64_special_case<false, true>(); }
+
+// the names of the shift / extend modifiers on their own (format_shift_op), every value of the 4-bit field
+HARNESS h_a64_shift_names() {
+  uint32_t op = nondet_u8() & 15;
+  String sb; make_string<255>(sb);
+  no_heap::n_calls = 0; no_heap::active = true;
+  Error e = arm::FormatterInternal::format_shift_op(sb, arm::ShiftOp(op));
+  no_heap::active = false;
+  V_ASSERT(e == Error::kOk && no_heap::n_calls == 0, "a64 modifier name formatting succeeds within the buffer given");
+  static const char names[14][5] = {"lsl", "lsr", "asr", "ror", "rrx", "msl", "uxtb", "uxth", "uxtw", "uxtx", "sxtb", "sxth", "sxtw", "sxtx"};
+  Cur c(sb.data(), sb.size());
+  if (op < 14) { for (unsigned k = 0; k < 4 && names[op][k]; k++) c.ch(names[op][k]); V_ASSERT(c.at_end(), "a shift or extend modifier is shown by its mnemonic"); }
+  else V_ASSERT(sb.size() != 0, "an undefined modifier value is shown as something");
+  observe_text<12>(sb);
+  V_WITNESS("a64 modifier named");
 }
 
 // ---- immediates and shift / extend modifiers -----------------------------------------------------------------------------------------
@@ -148,15 +202,16 @@ template<uint32_t OP> static inline void match_shift_name(Cur& c) {
   if constexpr (OP == uint32_t(arm::ShiftOp::kSXTW)) c.lit("sxtw");
   if constexpr (OP == uint32_t(arm::ShiftOp::kSXTX)) c.lit("sxtx");
 }
-template<uint32_t OP, unsigned BITS, unsigned MAXDEC> static void a64_imm_case() {
-  int64_t v = int64_t(nondet_u64());
+// FIXED: 0 a symbolic value, otherwise that value (the number formatting is the same code for every modifier: it is decided on symbolic values once)
+template<uint32_t OP, unsigned BITS, unsigned MAXDEC, int64_t FIXED = 0> static void a64_imm_case() {
+  int64_t v = FIXED ? FIXED : int64_t(nondet_u64());
   FormatFlags ff = any_flags();
   bool hex = Support::test(ff, FormatFlags::kHexImms);
   if (!(hex && uint64_t(v) > 9)) V_ASSUME(v >= -(int64_t(1) << BITS) && v < (int64_t(1) << BITS));
-  Imm imm(v); imm.set_predicate(OP);
+  { Imm imm(v); imm.set_predicate(OP); put(imm); }
   String sb; make_string<255>(sb);
   no_heap::n_calls = 0; no_heap::active = true;
-  Error e = arm::FormatterInternal::format_operand(sb, ff, nullptr, Arch::kAArch64, imm);
+  Error e = arm::FormatterInternal::format_operand(sb, ff, nullptr, Arch::kAArch64, g_op);
   no_heap::active = false;
   V_ASSERT(e == Error::kOk && no_heap::n_calls == 0, "a64 immediate formatting succeeds within the buffer given");
   Cur c(sb.data(), sb.size());
@@ -176,16 +231,6 @@ template<uint32_t OP, unsigned BITS, unsigned MAXDEC> static void a64_imm_case()
   observe_text<24>(sb);
 }
 HARNESS h_a64imm_plain() { a64_imm_case<0, 12, 4>(); }
-HARNESS h_a64imm_lsr() { a64_imm_case<1, 6, 2>(); }
-HARNESS h_a64imm_asr() { a64_imm_case<2, 6, 2>(); }
-HARNESS h_a64imm_ror() { a64_imm_case<3, 6, 2>(); }
-HARNESS h_a64imm_rrx() { a64_imm_case<4, 6, 2>(); }
-HARNESS h_a64imm_msl() { a64_imm_case<5, 6, 2>(); }
-HARNESS h_a64imm_uxtb() { a64_imm_case<6, 6, 2>(); }
-HARNESS h_a64imm_uxth() { a64_imm_case<7, 6, 2>(); }
-HARNESS h_a64imm_uxtw() { a64_imm_case<8, 6, 2>(); }
-HARNESS h_a64imm_uxtx() { a64_imm_case<9, 6, 2>(); }
-HARNESS h_a64imm_sxtb() { a64_imm_case<10, 6, 2>(); }
-HARNESS h_a64imm_sxth() { a64_imm_case<11, 6, 2>(); }
-HARNESS h_a64imm_sxtw() { a64_imm_case<12, 6, 2>(); }
-HARNESS h_a64imm_sxtx() { a64_imm_case<13, 6, 2>(); }
+HARNESS h_a64imm_asr() { a64_imm_case<2, 6, 2, 63>(); }
+HARNESS h_a64imm_sxtw() { a64_imm_case<12, 6, 2, 3>(); }
+HARNESS h_a64imm_lsr_neg() { a64_imm_case<1, 6, 2, -7>(); }
